@@ -120,8 +120,8 @@ class WorkflowState(object):
                 for k, v in t["prev"].items():
                     p = self.sequence[v]
                     if p["id"] == task_id and p["route"] == route:
-                        seq.append((i, t))
                         if (i, t) not in seq:
+                            seq.append((i, t))
                             q.put((t["id"], t["route"]))
 
         return seq
